@@ -145,3 +145,21 @@ def monitor_if_present(res, ctx, module, timeout=1500):
         res.notes.append(f'bounded monitor {module} is not present')
         return []
     return monitor(res, ctx, module, timeout)
+
+
+def conformance(res, modname, cases):
+    """Encoding conformance (engine vs CPython, DESIGN 4 item 3): cases = {contract name: [ {param: codec json}, ... ]}.
+    A mismatch is a checker fault (exit 3), never a verdict."""
+    from . import concrete
+    from .contract import load_registry
+    reg = load_registry(modname)
+    tot = res.conformance.setdefault('checked', 0)
+    for cname, argsets in cases.items():
+        checked, mism, skipped = concrete.eval_concrete(reg, reg.contracts[cname], argsets)
+        res.conformance['checked'] = res.conformance.get('checked', 0) + checked
+        res.conformance['skipped'] = res.conformance.get('skipped', 0) + len(skipped)
+        for m in mism:
+            res.conformance.setdefault('mismatches', []).append({'contract': cname, **m})
+    res.conformance['rule'] = ('the engine\'s symbolic semantics is run on concrete arguments; every path it keeps feasible must '
+                               'end in the outcome CPython produces on the real function (validity query); undecided queries '
+                               'are skipped and counted')
